@@ -853,6 +853,8 @@ struct Digit {
 
                 const SizeT start_at = stream.Length();
                 bigIntToString(stream, b_int);
+                // Rounding may carry into one more digit, which is stored at the end before the length is adjusted.
+                stream.Expect(SizeT{1});
 
                 switch (format.Type) {
                     case RealFormatType::SemiFixed: {
